@@ -18,7 +18,7 @@ def run(R):
     for variant in variants:
         exe = R.cc("ct_driver", ["ct_driver.c"], variant)
         out = R.path("ct", "sweep-%s.ndjson" % variant)
-        R.run([exe, str(R.seed), "sweep", "130" if thorough else "70", out], ok_codes=(0, 70))
+        R.run([exe, str(R.seed), "sweep", "300" if thorough else "70", out], ok_codes=(0, 70))
         files += R.split_file(out, 6 if not thorough else 10, "sweep-" + variant)
         if variant != "portable" or thorough:
             out = R.path("ct", "small-%s.ndjson" % variant)
